@@ -1,18 +1,23 @@
 -------------------------- MODULE RunGridSummaryRec --------------------------
 (* C10 on large K lists (about a thousand K-points, weights and weight changes far below the 1e-8..1e-3 range of any
-   absolute tolerance in the code): compact records taken at UpdateIntegral / Return of the real run(); the invariants
-   of RunGrid (IntegralConsistent, WeightOne, SavedWeightOne) are evaluated on the summary. *)
-EXTENDS Integers, Sequences, TLC, Json, IOUtils, TLCExt
+   absolute tolerance in the code): one record per UpdateIntegral / Return of the real run() carrying the projected
+   vectors  facs  (weights of the K list, units 1/wtot),  coef  (coefficient of every K-point's result in the running
+   integral),  ev  (evaluated flags) and  stray  (number of non-zero entries of the integral that belong to no K-point
+   of the list).  The clauses are the RunGrid invariants IntegralConsistent / WeightOne / SavedWeightOne written for
+   these vectors; they are evaluated here, by TLC, on the vectors (the driver does not pre-digest them). *)
+EXTENDS Integers, Sequences, TLC, Json, IOUtils, TLCExt, SequencesExt
 VARIABLE i
 Recs == JsonDeserialize(IOEnv.TRACE_FILE).recs
-Rec == Recs[i]
-Clauses ==
-  [ integral_consistent |-> Rec.nmismatch = 0 /\ Len(Rec.mismatches) = 0,
-    weight_one          |-> Rec.sumfac = Rec.wtot,
-    integral_weight_one |-> Rec.sumcoef = Rec.wtot,
-    no_stray_terms      |-> Rec.stray = 0,
-    all_evaluated       |-> Rec.notevaluated = 0 ]
-Report == \A n \in DOMAIN Clauses : Clauses[n] \/ PrintT(<<"BAD", i, n>>)
+Sum(s) == FoldLeft(LAMBDA a, b : a + b, 0, s)
+ClausesOf(r) ==
+  [ integral_consistent |-> Len(r.coef) = Len(r.facs) /\ \A k \in 1..Len(r.facs) : r.coef[k] = r.facs[k],
+    weight_one          |-> Sum(r.facs) = r.wtot /\ \A k \in 1..Len(r.facs) : r.facs[k] >= 0,
+    integral_weight_one |-> Sum(r.coef) = r.wtot,
+    no_stray_terms      |-> r.stray = 0,
+    all_evaluated       |-> \A k \in 1..Len(r.ev) : r.ev[k] ]
+Report == LET r == Recs[i]
+              c == ClausesOf(r)
+          IN \A n \in DOMAIN c : c[n] \/ PrintT(<<"BAD", i, n>>)
 RecInit == i \in 1..Len(Recs)
 RecSpec == RecInit /\ [][UNCHANGED i]_i
 =============================================================================
